@@ -77,6 +77,11 @@ macro_rules! fp_suite {
                     out.call("f.neg", json!({"F": $fstr, "form": "v", "a": b(&sa)}), || outs! {"out" => b(&(-fa).to_slice())});
                     out.call("f.mul", json!({"F": $fstr, "form": "rr", "a": b(&sa), "b": b(&sa)}), || outs! {"out" => b(&(&fa * &fa).to_slice())});
                     out.call("f.is_zero", json!({"F": $fstr, "a": b(&sa)}), || outs! {"out" => Value::Bool(fa.is_zero())});
+                    // the dedicated squaring routine is reached through pow, not through a * a
+                    let mut two = [0u8; 32];
+                    two[31] = 2;
+                    let f2 = mk(&two);
+                    out.call("f.pow", json!({"F": $fstr, "a": b(&sa), "e": b(&two)}), || outs! {"out" => b(&fa.pow(f2).to_slice())});
                 }
                 // every designated Montgomery-boundary pair (sum exactly p / exactly 2^256 / equal / successor): add and sub, mul for a quarter
                 for (i, (xa, xb)) in pool.pairs.iter().enumerate() {
